@@ -52,7 +52,8 @@ def gen_cases(rng, tier):
         cases.append({"pos": [enc(x) for x in pos], "neg": [enc(x) for x in neg], "ep": rng.choice([0, 0, 2]),
                       "en": rng.choice([0, 0, 3]), "sc": sc, "ec": ec, "shape": shape, "thr": thr, "targets": tg,
                       "is_sorted": (k % 2 == 0), "pshape": pshape, "order_seed": rng.randint(0, 10 ** 6),
-                      "int_dtype": k % 5 == 0 and style == "ints"})
+                      "int_dtype": k % 5 == 0 and style == "ints",
+                      "groups": ([[rng.choice("ab") for _ in pos], [rng.choice("ab") for _ in neg]] if k % 3 == 1 else None)})
     return cases
 
 
@@ -172,6 +173,44 @@ def run_impl(case):
             if not same(one, pwf[:, i]):
                 prob.append(("elementwise", f"pointwise_cm: slice for threshold element {i} differs from the scalar-threshold call"))
                 break
+    # derived objects (GroupScores: swap(), per-group views): queries on the original and on the derived object, in either
+    # order, leave each other's results unchanged, and equal those of freshly built objects
+    if case.get("groups"):
+        from score_analysis import GroupScores
+        pg, ng = np.array(case["groups"][0]), np.array(case["groups"][1])
+
+        def build():
+            return GroupScores(pos_in.astype(float), neg_in.astype(float), pos_groups=pg, neg_groups=ng,
+                               score_class=case["sc"], equal_class=case["ec"])
+
+        GM = ["group_tpr", "group_fnr", "group_tnr", "group_fpr", "group_topr", "group_tonr"]
+        SW = {"group_tpr": "group_tnr", "group_fnr": "group_fpr", "group_tnr": "group_tpr", "group_fpr": "group_fnr",
+              "group_topr": "group_tonr", "group_tonr": "group_topr"}
+        ref = {m: getattr(build(), m)(T) for m in GM}
+        ref_sw = {m: getattr(build().swap(), m)(T) for m in GM}
+        for first in ("original", "derived"):
+            g = build()
+            d = g.swap()
+            seq = [(g, ref, "original"), (d, ref_sw, "swapped")] if first == "original" else [(d, ref_sw, "swapped"), (g, ref, "original")]
+            for rep in range(2):
+                for obj, want, what in seq:
+                    for m in GM:
+                        v = getattr(obj, m)(T)
+                        if not same(v, want[m]):
+                            prob.append(("derived", f"{m} on the {what} GroupScores (queried {'first' if (obj is seq[0][0]) else 'second'}, "
+                                                    f"round {rep}) differs from the same query on a freshly built object"))
+            if prob:
+                break
+        for m in GM:
+            if not same(ref_sw[m], ref[SW[m]]):
+                prob.append(("derived", f"swap().{m} differs from {SW[m]} of the original"))
+        g = build()
+        names_ = sorted(set(pg.tolist()) | set(ng.tolist()))
+        v1 = {n_: (g[n_].pos.copy(), g[n_].neg.copy()) for n_ in names_}
+        _ = g.swap()[names_[0]].pos
+        for n_ in names_:
+            if not (same(g[n_].pos, v1[n_][0]) and same(g[n_].neg, v1[n_][1])):
+                prob.append(("derived", f"per-group view {n_!r} of the original changed after a view of swap() was taken"))
     after = snap()
     names = ["caller pos array", "caller neg array", "threshold array", "target array", "self.pos", "self.neg", "fields/dtypes/shapes"]
     for n_, b, a in zip(names, before, after):
